@@ -166,7 +166,22 @@ def run(prog, rep, tier):
     fixed = ("binop", "*", ("list", (SIZE,)), K)
     for lid, li in loops:
         it = li["iter"]
-        okK = it in (("ext", "range", (K,), ()), ("ext", "enumerate", (("ext", "range", (K,), ()),), ()))
+        fixed_forms = (fixed, ("ext", "numpy.repeat", (SIZE, K), ()), ("ext", "numpy.full", (K, SIZE), ()), ("binop", "*", ("tuple", (SIZE,)), K),
+                       ("binop", "*", K, ("list", (SIZE,))))
+
+        def is_sizes(t_):
+            # the K sizes: the range draw (K values) for a (lo, hi) request, [size] * K otherwise
+            return isinstance(t_, tuple) and len(t_) == 4 and t_[0] == "phi" and tuple_cond(t_[1]) and t_[2] == sizes_t and t_[3] in fixed_forms
+        rK = ("ext", "range", (K,), ())
+        okK = it in (rK, ("ext", "enumerate", (rK,), ()))
+        zipped = None          # the sizes vector the loop runs along (zip(range(K), sizes) / enumerate(sizes) / sizes): K rounds as well
+        if it[0] == "ext" and it[1] == "zip" and len(it[2]) == 2 and not it[3] and rK in it[2] and any(is_sizes(x_) for x_ in it[2]):
+            zipped = [x_ for x_ in it[2] if is_sizes(x_)][0]
+        elif it[0] == "ext" and it[1] == "enumerate" and len(it[2]) == 1 and is_sizes(it[2][0]):
+            zipped = it[2][0]
+        elif is_sizes(it):
+            zipped = it
+        okK = okK or zipped is not None
         counter = [("idx", ("ext", "range", (K,), ())), ("elem", ("ext", "range", (K,), ()))]
         mine = [d for d in draws if lid in d.loops]
         apps = [c for c in S.select("call", qname=Q) if c.callkind == "method" and c.target == ".append" and lid in c.loops]
@@ -186,10 +201,9 @@ def run(prog, rep, tier):
         d = mine[0]
         b, extra = api.bind_slots(api.GEN_SLOTS["choice"], d.args, d.kwargs)
         sz = b.get("size")
-        fixed_forms = (fixed, ("ext", "numpy.repeat", (SIZE, K), ()), ("ext", "numpy.full", (K, SIZE), ()), ("binop", "*", ("tuple", (SIZE,)), K),
-                       ("binop", "*", K, ("list", (SIZE,))))
-        sz_ok = sz is not None and sz[0] == "sub" and sz[2] in counter and sz[1][0] == "phi" and tuple_cond(sz[1][1]) and \
-            sz[1][2] == sizes_t and sz[1][3] in fixed_forms
+        if zipped is not None:
+            counter = counter + [("idx", zipped)]
+        sz_ok = sz is not None and ((sz[0] == "sub" and sz[2] in counter and is_sizes(sz[1])) or (zipped is not None and sz == ("elem", zipped)))
         rep.check("CHOICE.distinct", d.recv == RNG and b.get("replace") == ("const", False) and not extra, fwhere(f, d.node),
                   "rng.choice(..., replace=False): distinct variables within an intervention", "targets within an intervention may repeat (replace is not False) or another generator is used")
         rep.check("CHOICE.size", sz_ok, fwhere(f, d.node), "size = sizes[i] with sizes = range draw | [size] * K", "intervention size is %s" % fmt(sz)[:100] if sz else "no size")
